@@ -107,7 +107,8 @@ def relation_check(ctx, rng, spec, rel, mode, cross, cond_max=1e8):
     case = {"graph": {k: v for k, v in spec.items() if k not in ("truth", "truth_by_id")}, "relation": rel, "graph2": {k: v for k, v in spec2.items() if k not in ("truth", "truth_by_id")},
             "mode": mode}
     scene = max(R.tmag(v["kind"], v["pose"]) for v in spec["vertices"])
-    delta = 64 * R.EPS * (scene + 1.0) + extra_delta
+    # an angle perturbed by extra_delta moves every quantity expressed in that frame by (lever arm) x extra_delta; lever arms are bounded by 2 x scene
+    delta = 64 * R.EPS * (scene + 1.0) + extra_delta * (1.0 + 2.0 * scene)
     bound = 0.0
     for e in g._edges:
         er = M.edge_ref_error(e)
